@@ -234,6 +234,9 @@ def apply_activation(v, f, mem, accel):
     if a["lut_index"] is not None:
         if f["ofm"]["bits"] != 8 or f["ifm"]["bits"] != 8:
             raise Unmodelled("16/32-bit lookup table")
+        if bool(f["ifm"]["signed"]) != bool(f["ofm"]["signed"]):
+            # a table fused behind a requantisation that changes signedness: whether the index is biased by 128 follows the IFM or the OFM type is not pinned down (H6)
+            raise Unmodelled("table lookup with IFM and OFM of different signedness")
         base = hw.lut_start_bank(accel, True) * 1024 + a["lut_index"] * 256
         sh = np.frombuffer(mem[csdec.SHRAM_REGION], np.uint8)
         table = sh[base: base + 256].astype(I64)
